@@ -161,6 +161,7 @@ package eval
 //@   ensures  @C01 nil:: implies(isNull(left), isNull(result))
 //@   ensures  frame:: frame(s)
 //@   ensures  regs:: regsame()
+//@   onpanic ensures regs:: regsame()
 //@   safety C01 C07
 //@   property C01 C07 C10
 
@@ -179,6 +180,7 @@ package eval
 //@   ensures  @assumed wfval:: object.wfVal(result)
 //@   ensures  frame:: frame(s)
 //@   ensures  regs:: regsame()
+//@   onpanic ensures regs:: regsame()
 //@   ensures  depthguard:: old(s.depth) <= old(s.MaxDepth)
 //@   property C10 C09 C07
 
@@ -192,6 +194,7 @@ package eval
 //@   loop * invariant regsame()
 //@   ensures  frame:: frame(s)
 //@   ensures  regs:: regsame()
+//@   onpanic ensures regs:: regsame()
 //@   property C10
 
 // quote evaluates unquote() calls through an ast.Modify callback that re-enters evalInternal: the callback's frame
@@ -201,6 +204,7 @@ package eval
 //@   modifies heap
 //@   ensures  frame:: frame(s)
 //@   ensures  regs:: regsame()
+//@   onpanic ensures regs:: regsame()
 
 //@ func (*State).evalIndexRangeExpression
 //@   requires s != nil && s.env != nil
@@ -215,6 +219,7 @@ package eval
 //@   ensures  @C01 negslice:: implies(isStr(left) && isInt(li) && rightIdx != nil && isInt(ri) && intVal(li) < 0 && intVal(ri) < 0 && -len(strVal(left)) <= intVal(li) && intVal(li) <= intVal(ri), isStr(result) && strVal(result) == strVal(left)[intVal(li)+len(strVal(left)):intVal(ri)+len(strVal(left))])
 //@   ensures  frame:: frame(s)
 //@   ensures  regs:: regsame()
+//@   onpanic ensures regs:: regsame()
 //@   safety C01 C07
 //@   property C01 C07 C10
 
@@ -228,8 +233,10 @@ package eval
 //@   dyncall Callback requires maxcount:: fn.MaxArgs == -1 || len(arg2) <= fn.MaxArgs
 //@   dyncall Callback ensures s.depth == old(s.depth) && s.env == old(s.env) && s.Out == old(s.Out) && s.env.numReg == old(s.env.numReg) && result != nil
 //@   dyncall Callback ensures regsame()
+//@   dyncall Callback onpanic regsame()
 //@   ensures  frame:: frame(s)
 //@   ensures  regs:: regsame()
+//@   onpanic ensures regs:: regsame()
 //@   property C07 C10
 
 // Operators that grow strings / arrays: every allocation whose size is a program value must be covered by the
@@ -267,6 +274,7 @@ package eval
 //@   nosafety
 //@   maypanic *
 //@   ensures  env.numReg == old(env.numReg) + 1 && result0.Idx == old(env.numReg) && result0.RefEnv == env
+//@   onpanic ensures @assumed env.numReg == old(env.numReg)
 //@   property C05 C07
 
 // Call arguments never carry a register out of the environment that owns it.
@@ -280,6 +288,7 @@ package eval
 //@   loop 1 invariant regsame()
 //@   ensures  frame:: frame(s)
 //@   ensures  regs:: regsame()
+//@   onpanic ensures regs:: regsame()
 //@   ensures  noreg:: implies(result1 == nil, forall(0, len(result0), func(k int) bool { return !isType(result0[k], *object.Register) }))
 //@   property C05 C10
 
@@ -294,6 +303,7 @@ package eval
 //@   loop 1 invariant regsame()
 //@   ensures  frame:: frame(s)
 //@   ensures  regs:: regsame()
+//@   onpanic ensures regs:: regsame()
 //@   ensures  capacity:: implies(result2 == nil, result0 != nil && 0 <= result0.numReg && result0.numReg <= 8)
 //@   property C05 C10
 
@@ -306,6 +316,7 @@ package eval
 //@   ensures  frame:: frame(s)
 //@   ensures  balance:: s.env.numReg == old(s.env.numReg)
 //@   ensures  regs:: regsame()
+//@   onpanic ensures regs:: regsame()
 //@   loop 1 invariant forallv(func(e *object.Environment) bool { return implies(old(allocated(e)) && e != s.env, e.numReg == old(e.numReg)) })
 //@   loop 1 invariant s.depth == old(s.depth) && s.env == old(s.env) && s.Out == old(s.Out)
 //@   loop 1 invariant s.env.numReg == old(s.env.numReg) + ite(ptr != nil, 1, 0)
